@@ -49,7 +49,7 @@ class _Impl:
         # step bound: every pop of a read from a queue asks the monitor once; a terminating run over R reads pops
         # O(R^2) reads per pass.  The (pure Python) CovMonitor class is wrapped for that - in the symbolic world and in
         # the real package alike - so that a selection loop that never ends becomes an observable failure.
-        self.calls = [0, 0]
+        self.calls = [0, float("inf")]
         orig = covmonitor.max_coverage_in_range
         calls = self.calls
 
@@ -64,8 +64,11 @@ class _Impl:
     def readselection(self, rs, k, preferred, bridging, limit=80):
         self.calls[0], self.calls[1] = 0, limit
         out = io.StringIO()
-        with contextlib.redirect_stdout(out):
-            return self._readselection(rs, k, preferred, bridging)
+        try:
+            with contextlib.redirect_stdout(out):
+                return self._readselection(rs, k, preferred, bridging)
+        finally:
+            self.calls[1] = float("inf")  # outside of this call the (shared, real) CovMonitor class must behave as unwrapped
 
 
 def _locked_load_real(build, names):
@@ -701,10 +704,7 @@ class PhaseSelect(SubCheck):
         return "phase_select:%s" % v["msg"][:70]
 
 
-# PhaseSelect is NOT registered: drafted at the very end of session 4 for seed C07-5 (it catches it when run alone), but in a
-# full C07 run some paths showed replay mismatches between the DeCy translation and the compiled readselection when it shares
-# worker processes with `select` (hook state); to be finished before it may be claimed.  See DESIGN 9.6 round 8.
-SUBCHECKS = {c.name: c for c in [Select(), Family(), CovMon()]}
+SUBCHECKS = {c.name: c for c in [Select(), Family(), CovMon(), PhaseSelect()]}
 
 if __name__ == "__main__":
     import sys
